@@ -233,9 +233,14 @@ func checkValues(h *hist, l *ipfslog.IPFSLog, what string) {
 		return
 	}
 	cmp := h.sortFn()
-	for i := 0; i+1 < len(v); i++ {
-		r, err := cmp(v[i], v[i+1])
-		vx.Assert(pp("C03"), err == nil && r < 0, "Values() is sorted by the configured ordering ("+what+")")
+	// "sorted by the configured ordering" can only be required of orderings that respect causality (hash
+	// tie-break, last-write-wins): first-write-wins orders an entry BEFORE its predecessors, so no causal
+	// linearisation is sorted by it; for it completeness, causality and arrival-independence are checked.
+	if h.cfg.sort != sortFWW {
+		for i := 0; i+1 < len(v); i++ {
+			r, err := cmp(v[i], v[i+1])
+			vx.Assert(pp("C03"), err == nil && r < 0, "Values() is sorted by the configured ordering ("+what+")")
+		}
 	}
 	// arrival-order independence: the same entries inserted in reverse order linearise identically
 	rev := entry.NewOrderedMap()
